@@ -1,6 +1,6 @@
 (* Byte-level models of record() / parse() / new() of the UDF VOLUME-LEVEL structures of
    /repo/pycdlib/udf.py.  Definitions only; proofs in Proofs/UdfVdsProofs.v, UdfVdsDescProofs.v,
-   UdfVdsLvProofs.v.  Reuses UDFTag / UDFShortAD / UDFLongAD of Model/Udf.v.
+   UdfVdsLvProofs.v, UdfVdsCasesProofs.v.  Reuses UDFTag / UDFShortAD / UDFLongAD of Model/Udf.v.
 
    Sources modelled:
      BEAVolumeStructure / NSRVolumeStructure / TEAVolumeStructure  -> vrs_*, bea_*, nsr_*, tea_*
@@ -14,7 +14,7 @@
      UDFLogicalVolumeHeaderDescriptor, UDFLogicalVolumeImplementationUse,
        UDFLogicalVolumeIntegrityDescriptor                             -> (li_unique_id), lvimpl_*, lvid_*
      UDFFileSetDescriptor                                              -> fsd_*
-     pycdlib.py: num_files/num_dirs += / -= 1 call sites, _finish_add/_finish_remove UDF part -> *_event
+   (the num_files / num_dirs / part_length / size_tables bookkeeping of pycdlib.py is in Model/UdfVdsBook.v)
 
    Conventions.  A descriptor object is the pair (desc_tag, the other attributes).  record() is
    [desc_record tag (X_body x)]: X_body is rec[16:] = struct.pack(FMT, 16 zeros, ...)[16:] and the tag
@@ -615,44 +615,6 @@ Definition fsd_parse_body (data : list Z) : option fsd :=
   end.
 Definition fsd_record (d : utag * fsd) := desc_record (fst d) (fsd_body (snd d)).
 Definition fsd_parse := desc_parse 256 fsd_parse_body.
-
-(* ---- pycdlib.py counter / length bookkeeping ------------------------------------------------------ *)
-(* logical_volume_impl_use.num_files += 1 (_add_fp / add_symlink-like paths, _udf_add...), -= 1
-   (_rm_udf_file_ident), num_dirs += 1 (add_directory), -= 1 (rm_directory) *)
-Inductive cnt_event := EvFileAdd | EvFileRm | EvDirAdd | EvDirRm.
-Definition lvimpl_event (u : lvimpl) (e : cnt_event) : lvimpl :=
-  match e with
-  | EvFileAdd => lvimpl_with_counts u (lu_num_files u + 1) (lu_num_dirs u)
-  | EvFileRm => lvimpl_with_counts u (lu_num_files u - 1) (lu_num_dirs u)
-  | EvDirAdd => lvimpl_with_counts u (lu_num_files u) (lu_num_dirs u + 1)
-  | EvDirRm => lvimpl_with_counts u (lu_num_files u) (lu_num_dirs u - 1)
-  end.
-Definition file_delta (e : cnt_event) : Z := match e with EvFileAdd => 1 | EvFileRm => -1 | _ => 0 end.
-Definition dir_delta (e : cnt_event) : Z := match e with EvDirAdd => 1 | EvDirRm => -1 | _ => 0 end.
-Definition net_files (evs : list cnt_event) : Z := zsum (map file_delta evs).
-Definition net_dirs (evs : list cnt_event) : Z := zsum (map dir_delta evs).
-
-(* _finish_add(_, num_partition_bytes_to_add) / _finish_remove(num_bytes_to_remove, is_partition) when
-   udf_root and udf_logical_volume_integrity exist: part_length of the main and reserve partition
-   descriptors and size_tables[0] (IndexError on an empty list -> None) change by the same amount *)
-Record udf_sizes := mk_udf_sizes { uz_main_len : Z; uz_reserve_len : Z; uz_size_tables : list Z }.
-Inductive size_event := EvAdd (num_partition_bytes_to_add : Z) | EvRemove (num_bytes_to_remove : Z) (is_partition : bool).
-Definition sizes_shift (s : udf_sizes) (k : Z) : option udf_sizes :=
-  match uz_size_tables s with
-  | x :: r => Some (mk_udf_sizes (uz_main_len s + k) (uz_reserve_len s + k) ((x + k) :: r))
-  | [] => None
-  end.
-Definition sizes_event (s : udf_sizes) (e : size_event) : option udf_sizes :=
-  match e with
-  | EvAdd n => sizes_shift s (ceiling_div n 2048)
-  | EvRemove n true => sizes_shift s (- ceiling_div n 2048)
-  | EvRemove _ false => Some s
-  end.
-Fixpoint sizes_run (s : udf_sizes) (evs : list size_event) : option udf_sizes :=
-  match evs with
-  | [] => Some s
-  | e :: r => match sizes_event s e with Some s' => sizes_run s' r | None => None end
-  end.
 
 (* ---- checker for the external harness -------------------------------------------------------------- *)
 Definition check_desc {P} (ident : Z) (pb : list Z -> option P) (body : P -> option (list Z))
